@@ -12,7 +12,7 @@ RULE = ("enum: every +/-/0 pattern with N<=7 (quick) / N<=9 (thorough), spelled,
         "window starting at 0-based residue i sits at column i+floor((w-1)/2), floor((w-1)/2) leading and ceil((w-1)/2) trailing zeros; one row "
         "per group; w=N => the single value equals the whole-sequence parameter; get_delta() = mean over w in {5,6} of the mean squared deviation "
         "of the w-profile's window values from the global sigma (0 when w>N); w>N => exception for all five entry points. About 6% of the random cases are long (129-320), highly charged sequences with windows of 128 residues or more. Half of the random cases run after a generated warm-up history of other API calls on the same object; user group lists may repeat a group. Non-trivial: 1<w<N; "
-        "distinct by (sequence, w, profile).")
+        "distinct by (sequence, w, profile). A quarter of the random cases use a pasted spelling. In the generated parts one clean word in eight is handed to the constructor as SeqObj=Sequence(lower/mixed-case text) instead of as a string (same object expected).")
 ASSUMPTIONS = ["window sizes are positive integers (the statement's domain 1<=w<=N and the rejected range w>N)",
                "hydropathy profile uses the 0-1 (Uversky-normalised) Kyte-Doolittle scale, as get_uversky_hydropathy does", "tolerance 1e-9"]
 TECHNIQUE = "exhaustive enumeration over short patterns x all windows + Hypothesis property testing; differential oracle = independent reference sliding window, whole-sequence and delta cross-checks"
